@@ -5,6 +5,15 @@ V = "/verif"
 props = [json.loads(l) for l in open(V + "/properties.jsonl")]
 
 CLAIMED = {
+ "C09": dict(
+    text="Typestate/ORDER/WHO rules over lib/ext2fs/fileio.c and the allocation callers, decided on every CFG path: the handle's one-block buffer changes block only after it was written out and invalidated; "
+         "load_buffer's dontfill argument governs nothing but the buffer content (all handle state the flush consults is set independently of it), valid only after the lookup, dontfill only for whole-block writes; "
+         "copies into the buffer are paired with the dirty mark, copies out are preceded by sync and a filling load; flush allocates/converts before writing, writes to the mapped block, clears dirty only after a successful write; "
+         "close flushes before freeing and returns the error; a size change writes out and drops the buffer before zeroing/freeing on disk; only the buffer routines store the cached block numbers; "
+         "a block found by the free-block search routines and then used is marked in use on every succeeding path (7 call sites; fallocate's probe idiom excluded with its reason); "
+         "no zero-extended 32-bit complement mask on a 64-bit offset/size/block number in the data path. "
+         "Decides the buffer typestate and allocation-marking discipline for every operation history; does NOT decide read-back equality itself, extent split/merge, punch range arithmetic or inline-data lengths.",
+    ref="§8.6 C09", technique="static analysis: typestate over clang CFGs (dominance, edge-gated reachability, control-dependence purity), path-sensitive error-flow and use-implies-mark exploration, operand-width facts"),
  "C06": dict(
     text="TAINT-GUARD rule over the anchored parsers of untrusted data (superblock/descriptor open path, journal recovery and fast-commit replay, extent headers, directory blocks, xattr blocks and in-inode xattrs, inline data, dx count/limit, MMP, orphan file, qcow2 header, undo file): "
          "values derived from fields of on-disk record types (through locals, struct copies, byte-order helpers and out-parameters) are followed to their uses as length, I/O count, allocation size, array index, pointer offset, divisor or shift count. "
